@@ -37,7 +37,11 @@ def _frame(tag, body):
 COPY_SRVERR_HEX = (_frame(b"E", b"SERROR\0VERROR\0C22P04\0Mmock copy error\0\0") + _frame(b"Z", b"I")).hex()
 # first messages after which the transaction is over at once: kind -> expected reply class
 RELEASE_KINDS = {"single": "row", "single_err": "sql_error", "copy_out": "copy_out_ok", "copy_out_big": "copy_out_ok",
-                 "lone_sync": "sync_only", "close_sync": "close_ok", "parse_sync": "parse_ok"}
+                 "lone_sync": "sync_only", "close_sync": "close_ok", "parse_sync": "parse_ok", "xbatch": "batch_ok"}
+# expected reply classes after which the tagged statement must have reached the backend exactly once / not at all
+RAN_ONCE = ("begin_ok", "row", "sql_error", "row_in_txn", "sql_error_in_txn", "aborted_in_txn", "commit_ok", "batch_ok", "batch_ok_in_txn",
+            "copy_in_ready", "copy_out_ok")
+NEVER_RAN = ("pool_error",)
 VALIDATOR = 900   # model client id of ConnectionPool::validate()'s one-off checkout
 HOWS = ["XTerminate", "ClientSocketErr", "IdleTimeoutWrite", "DecoderErr", "Panic", "ClientWriteFail",
         "StatementTimeout", "ServerError", "CleanupErr", "PreparedStmtErr"]
@@ -382,6 +386,10 @@ class Plan:
             msgs = [{"t": "Q", "sql": "COPY data FROM STDIN /*%s*/" % t}]
         elif kind == "copy_in_srverr":
             msgs = [{"t": "Q", "sql": "COPY data FROM STDIN /*mock: copy_reply_raw=%s*/ /*%s*/" % (COPY_SRVERR_HEX, t)}]
+        elif kind == "xbatch":
+            # an extended-protocol batch: exactly these four messages must reach the backend, once, iff the checkout succeeds
+            msgs = [{"t": "P", "name": "", "sql": "INSERT INTO data VALUES (1) /*%s*/" % t}, {"t": "B", "portal": "", "name": ""},
+                    {"t": "E", "portal": "", "max": 0}, {"t": "S"}]
         elif kind == "lone_sync":
             msgs = [{"t": "S"}]
         elif kind == "close_sync":
@@ -481,6 +489,15 @@ class Plan:
                 self.do(("SessionModeKeep", c) if self.m.session else ("TxnEndRelease", c, False))
                 self.replies.append((nm, t, "copy_srverr" if variant == "srverr" else ("copy_ok" if kind == "copy_done" else "copy_failed")))
             self.begin_tag.pop(c, None)
+        elif kind == "xstmt":
+            send([{"t": "P", "name": "", "sql": "INSERT INTO data VALUES (2) /*%s*/" % t}, {"t": "B", "portal": "", "name": ""},
+                  {"t": "E", "portal": "", "max": 0}, {"t": "S"}]); recv()
+            if deadsrv:
+                self.do(("ExitHolding", c, "ServerError", True)); self.gone_expected += 1
+                self.replies.append((nm, t, "server_error"))
+            else:
+                self.do(("Exchange", c))
+                self.replies.append((nm, t, "aborted_in_txn" if c in self.failed else "batch_ok_in_txn"))
         elif kind in ("stmt", "stmt_err", "commit"):
             sql = {"stmt": "SELECT 2 /*%s*/", "stmt_err": "SELECT 2 /*mock: error*/ /*%s*/", "commit": "COMMIT /*%s*/"}[kind] % t
             send([{"t": "Q", "sql": sql}]); recv()
@@ -601,6 +618,7 @@ class Plan:
                 free_now = bool(m.idleq) or (m.num + m.pending < m.max)
                 out += [("first", c, "begin")] * (6 if free_now or short else 8) + [("first", c, "single")] * 2 + [("first", c, "single_err")]
                 out += [("first", c, "copy_in")] * 2 + [("first", c, k) for k in ("copy_in_srverr", "copy_out", "copy_out_big")]
+                out += [("first", c, "xbatch")] * 3
                 if not m.dead:
                     # batches that may need nothing from the server do not notice a dead one: keep them out of worlds with dead connections
                     out += [("first", c, k) for k in ("lone_sync", "close_sync", "parse_sync")]
@@ -614,7 +632,7 @@ class Plan:
             elif st[0] == "Holding" and c in self.incopy:
                 out += [("txn", c, "copy_done")] * 4 + [("txn", c, "copy_fail")] * 3 + [("txn", c, "abort")]
             elif st[0] == "Holding" and st[2] == "InTxn":
-                out += [("txn", c, "stmt")] * 2 + [("txn", c, "stmt_err")] + [("txn", c, "commit")] * 4
+                out += [("txn", c, "stmt")] * 2 + [("txn", c, "xstmt")] * 2 + [("txn", c, "stmt_err")] + [("txn", c, "commit")] * 4
                 out += [("txn", c, "abort")] * 2 + [("txn", c, "X"), ("txn", c, "badclose"), ("txn", c, "badclose"), ("txn", c, "srvclose")]
                 if st[1] not in m.dead and not m.waiters and not m.woken:
                     out += [("txn", c, "midreply")]   # the fault mode is global to the backend: only while nobody else is about to use it
@@ -624,7 +642,7 @@ class Plan:
                     out += [("txn", c, "stmt_timeout")] * 2
             elif st[0] == "Holding" and st[2] == "IdleHeld":
                 out += [("first", c, "begin")] * 3 + [("first", c, "single")] * 2 + [("txn", c, "abort"), ("txn", c, "X"), ("txn", c, "badclose")]
-                out += [("first", c, k) for k in ("copy_in", "copy_in_srverr", "copy_out", "copy_out_big")]
+                out += [("first", c, k) for k in ("copy_in", "copy_in_srverr", "copy_out", "copy_out_big", "xbatch")]
                 if not m.dead:
                     out += [("first", c, k) for k in ("lone_sync", "close_sync", "parse_sync")]
                 if cfg["plugin"]:
@@ -742,7 +760,7 @@ def classify(frames, outcome):
     if errs:
         e = errs[0]
         if e.startswith("could not get connection from the pool"):
-            return "pool_error" if z == ["I"] and outcome == "ok" else "pool_error?"
+            return "pool_error" if (ts == ["E", "Z"] and z == ["I"] and outcome == "ok") else "pool_error?"
         if e.startswith("error receiving data from server") or e.startswith("error sending") or "server" in e and "receiv" in e:
             return "server_error"
         if e == "pool statement timeout":
@@ -769,6 +787,8 @@ def classify(frames, outcome):
         return "sync_only" if z == ["I"] else "sync_only?"
     if ts == ["3", "Z"]:
         return "close_ok" if z == ["I"] else "close_ok?"
+    if ts == ["1", "2", "C", "Z"]:
+        return {"I": "batch_ok", "T": "batch_ok_in_txn"}.get(z[0], "batch?")
     if ts == ["1", "Z"]:
         return "parse_ok" if z == ["I"] else "parse_ok?"
     if "D" in ts:
@@ -776,7 +796,7 @@ def classify(frames, outcome):
         if cols == ["fake"]:
             return "fake" if z == ["I"] else "fake?"
         return "row" if z == ["I"] else ("row_in_txn" if z == ["T"] else "row?")
-    tags = [f.get("tag") for f in frames if f["t"] == "C"]
+    tags = [f.get("tag") or "" for f in frames if f["t"] == "C"]
     if tags == ["BEGIN"] and z == ["T"]:
         return "begin_ok"
     if tags and tags[0] in ("COMMIT", "ROLLBACK") and z == ["I"]:
@@ -815,6 +835,18 @@ def compare1(plan_d, coq_views, res, tolerant):
             sql = (e.get("detail") or {}).get("sql") or ""
             for t in re.findall(r"/\*(t\d+_\d+)\*/", sql):
                 tag_conn[t] = e["conn"]
+    # how often each tagged statement reached the backend (as a Query or as a Parse)
+    tag_count = {}
+    for e in events:
+        if e.get("ev") == "msg" and e.get("who") == "b0" and e.get("tag") in ("Q", "P"):
+            for t in re.findall(r"/\*(t\d+_\d+)\*/", (e.get("detail") or {}).get("sql") or ""):
+                tag_count[t] = tag_count.get(t, 0) + 1
+    for nm, lab, want in plan_d["replies"]:
+        n = tag_count.get(lab, 0)
+        if want in NEVER_RAN and n != 0:
+            problems.append(("monitor-refused-ran", "%s %s was refused at checkout (pool error), yet its statement reached the backend %d time(s)" % (nm, lab, n)))
+        elif want in RAN_ONCE and n != 1:
+            problems.append(("monitor-ran-once", "%s %s (%s): its statement reached the backend %d times, must be exactly once" % (nm, lab, want, n)))
     # replies, per client in order
     per_client = {}
     for e in events:
@@ -1051,6 +1083,20 @@ def scripted_plans(run):
         p.first_message(2, "begin"); p.observe("h6", {"inuse_must_be": 1})
         p.in_txn(2, "commit"); p.observe("h7", {"inuse_must_be": 0})
         p.finish(); out.append(p)
+    # a batch refused at checkout leaves nothing behind: the client's later batches and queries get exactly their own replies, the backend
+    # sees exactly the accepted statements, once each
+    for cache in (False, True):
+        p = Plan({"pool_size": 1, "session": False, "fifo": False, "connect_timeout": 300, "plugin": False, "cache": cache}, rng, 2)
+        p.actions = ["refused-batch:exhausted"]
+        p.first_message(0, "begin"); p.observe("e0")
+        for k in range(2):
+            p.first_message(1, "xbatch"); p.observe("e1w%d" % k); p.timeout_waiters(); p.settle(); p.observe("e1_%d" % k, {"inuse_must_be": 1})
+        p.in_txn(0, "xstmt"); p.observe("e2")
+        p.in_txn(0, "commit"); p.observe("e3", {"inuse_must_be": 0})
+        for k, kind in enumerate(("xbatch", "single", "xbatch", "lone_sync", "xbatch")):
+            p.first_message(1, kind); p.observe("e4_%d" % k, {"inuse_must_be": 0})
+        p.first_message(1, "begin"); p.in_txn(1, "xstmt"); p.in_txn(1, "commit"); p.observe("e5", {"inuse_must_be": 0})
+        p.finish(); out.append(p)
     # checkout_failure_limit: the second failed checkout ends the client task; nothing is held by it
     p = Plan({"pool_size": 1, "session": False, "fifo": False, "connect_timeout": 300, "plugin": False, "checkout_failure_limit": 2}, rng, 2)
     p.actions = ["failure_limit"]
@@ -1060,7 +1106,7 @@ def scripted_plans(run):
     p.in_txn(0, "commit"); p.observe("l3")
     p.finish(); out.append(p)
     # backend down: checkout times out, the connection attempt gives up, later everything works again
-    for ps in (1, 2):
+    for ps, kind in ((1, "single"), (2, "single"), (1, "xbatch"), (2, "xbatch")):
         p = Plan({"pool_size": ps, "session": False, "fifo": False, "connect_timeout": 300, "plugin": False}, rng, 2)
         p.actions = ["down"]
         p.first_message(0, "single"); p.observe("d0")
@@ -1070,12 +1116,13 @@ def scripted_plans(run):
             p.do(("ConnDied", s))
         p.first_message(0, "single")      # gets the dead idle connection: server error, task ends
         p.observe("d1")
-        p.first_message(1, "single")      # nothing idle, connect fails, times out
+        p.first_message(1, kind)          # nothing idle, connect fails, times out
         p.observe("d2w"); p.timeout_waiters(); p.settle(); p.observe("d2")
         p.steps += [{"op": "backend", "b": "b0", "mode": "normal"}, {"op": "sleep", "ms": 60}]
         p.backend_up = True
-        p.first_message(1, "begin"); p.observe("d3")
-        p.in_txn(1, "commit"); p.observe("d4")
+        p.first_message(1, kind); p.observe("d3", {"inuse_must_be": 0})     # served: exactly its own reply
+        p.first_message(1, "begin"); p.observe("d3b")
+        p.in_txn(1, "xstmt" if kind == "xbatch" else "stmt"); p.in_txn(1, "commit"); p.observe("d4", {"inuse_must_be": 0})
         p.finish(); out.append(p)
     return out
 
@@ -1152,6 +1199,71 @@ def check_ban_world(res):
                 probs.append(("monitor-capacity", "every replica banned, the replica is back and idle, yet client c1's query %s got %s instead of a row from it "
                                                   "(the unban-all valve of try_unban did not open): waiters refused although capacity exists" % (lab, rep.get(lab),)))
                 break
+    return probs, info
+
+
+# ------------------------------------------------------------------ the capacity bound across PAUSE / RELOAD / RESUME (monitor only)
+def reload_world_scenario(changed=True, ps=1, new_ps=None):
+    """pool_size ps.  PAUSE; a client arrives and is parked; the configuration is reloaded (the pool object is replaced when `changed`);
+    RESUME.  The parked client must work on the pool that is current when it wakes up: together with the other clients it may never
+    hold more than pool_size server connections, counted over ALL live sessions of the backend (old and new pool objects)."""
+    def toml(extra_user=None, size=ps):
+        u = {"pool_size": size}
+        u.update(extra_user or {})
+        return W.make_toml({"connect_timeout": 300}, {"p": {"users": [u], "shards": [{"servers": [["b0", "primary"]]}]}})
+    def conn(c, db="p", user="u", pw="pw"):
+        return {"op": "connect", "c": c, "params": {"user": user, "database": db, "application_name": c}, "password": pw}
+    def q(c, sql, lab, to=3000):
+        return [{"op": "send", "c": c, "msgs": [{"t": "Q", "sql": sql}]}, {"op": "recv", "c": c, "until": "Z", "timeout_ms": to, "label": lab}]
+    names = ["c%d" % i for i in range(ps + 1)]
+    steps = [conn(n) for n in names] + [conn("adm", "pgcat", "admin", "adminpw")]
+    steps += q(names[0], "SELECT 1 /*w0*/", "w0") + q("adm", "PAUSE", "pause")
+    for i in range(ps):        # ps clients arrive while the pool is paused
+        steps += [{"op": "spawn", "task": "park%d" % i, "steps": q(names[1 + i] if i + 1 <= ps else names[0], "BEGIN /*p%d*/" % i, "p%d" % i, 6000)}, {"op": "sleep", "ms": 40}]
+    steps += [{"op": "sleep", "ms": 60}, {"op": "snapshot", "label": "parked"}]
+    steps += [{"op": "write_config", "toml": toml({"statement_timeout": 30000} if changed else None, new_ps or ps)}, {"op": "reload"}, {"op": "sleep", "ms": 60}]
+    steps += q("adm", "RESUME", "resume")
+    steps += [{"op": "join", "task": "park%d" % i, "timeout_ms": 4000} for i in range(ps)]
+    steps += [{"op": "sleep", "ms": 40}, {"op": "snapshot", "label": "woken"}]
+    steps += q(names[0], "BEGIN /*x*/", "extra", 2000)          # one client more than the pool has room for: must be refused
+    steps += [{"op": "sleep", "ms": 30}, {"op": "snapshot", "label": "full"}]
+    for i in range(ps):
+        steps += q(names[1 + i], "COMMIT /*c%d*/" % i, "c%d" % i)
+    steps += q(names[0], "BEGIN /*y*/", "again") + q(names[0], "COMMIT /*z*/", "done") + [{"op": "sleep", "ms": 80}, {"op": "snapshot", "label": "end"}]
+    return {"backends": [{"name": "b0"}], "toml": toml(), "workers": 2, "steps": steps, "pool_size": ps}
+
+
+def check_reload_world(scn, res):
+    ps = scn["pool_size"]
+    if "harness_error" in res or "start_error" in res:
+        return [("harness", str(res)[:300])], {}
+    rep = {e["label"]: classify(e["frames"], e["outcome"]) for e in res.get("events", []) if e.get("ev") == "recv" and e.get("label")}
+    snaps = {s["label"]: s for s in res.get("snapshots", [])}
+    info = {"replies": rep}
+    probs = []
+    if not snaps.get("parked", {}).get("pools") or not snaps["parked"]["pools"][0]["paused"]:
+        probs.append(("harness", "reload world: the pool was not paused when the clients arrived"))
+    for i in range(ps):
+        if rep.get("p%d" % i) != "begin_ok":
+            probs.append(("monitor-capacity", "PAUSE/RELOAD/RESUME: parked client %d was not served after RESUME: %s" % (i, rep.get("p%d" % i))))
+    for lab in ("woken", "full", "end"):
+        s = snaps.get(lab)
+        if not s:
+            probs.append(("harness", "reload world: snapshot %s missing" % lab)); continue
+        open_ = s["backends"]["b0"]["open"]
+        intxn = [o for o in open_ if o["s"]["state"]["txn"] in ("T", "E")]
+        info[lab] = {"open": len(open_), "in_txn": len(intxn), "pools": [(x["connections"], x["idle"]) for p_ in s["pools"] for x in p_["servers"]]}
+        if len(intxn) > ps:
+            probs.append(("monitor-bound", "PAUSE/RELOAD/RESUME, %s: %d server sessions are inside a transaction at once, pool_size is %d (a client works on a pool object that was replaced)" % (lab, len(intxn), ps)))
+        if lab in ("full", "end") and len(open_) > ps:
+            probs.append(("monitor-bound", "PAUSE/RELOAD/RESUME, %s: %d live server sessions for one (pool, user), pool_size is %d" % (lab, len(open_), ps)))
+    if rep.get("extra") != "pool_error":
+        probs.append(("monitor-bound", "PAUSE/RELOAD/RESUME: with %d transactions open on a pool of %d a further BEGIN got %s instead of a pool error" % (ps, ps, rep.get("extra"))))
+    if rep.get("again") != "begin_ok" or rep.get("done") != "commit_ok":
+        probs.append(("monitor-capacity", "PAUSE/RELOAD/RESUME: capacity not back after the commits: %s / %s" % (rep.get("again"), rep.get("done"))))
+    e = snaps.get("end")
+    if e and any(x["connections"] != x["idle"] for p_ in e["pools"] for x in p_["servers"]):
+        probs.append(("monitor-leak", "PAUSE/RELOAD/RESUME: connections still in use at the end"))
     return probs, info
 
 
@@ -1343,7 +1455,7 @@ def check(run):
         evals += len(p.obs)
         for a in p.actions:
             a = tuple(a) if isinstance(a, (list, tuple)) else (a,)
-            key = a[0] if a[0] in ("blip", "reset", "timeout", "abandon", "rotation", "f14", "down", "failure_limit") or str(a[0]).startswith(("copy:", "release:", "reset-", "user-mode", "healthcheck")) else (a[0], a[-1])
+            key = a[0] if a[0] in ("blip", "reset", "timeout", "abandon", "rotation", "f14", "down", "failure_limit") or str(a[0]).startswith(("copy:", "release:", "reset-", "user-mode", "healthcheck", "refused-batch")) else (a[0], a[-1])
             hist[str(key)] = hist.get(str(key), 0) + 1
         for k, o in enumerate(p.ops):
             distinct.add((p.cfg["pool_size"], p.cfg["session"], p.cfg["fifo"], tuple(o[:1] + o[2:]) if len(o) > 2 else o[:1], canon_view(views[k][1])[0:2], len(views[k][1][3][0])))
@@ -1390,6 +1502,20 @@ def check(run):
     elif bprobs:
         run.broken.append("ban world did not run as scripted: %s" % (bprobs[0][1],))
 
+    # the bound across PAUSE / RELOAD / RESUME
+    rscns = [reload_world_scenario(True, 1), reload_world_scenario(False, 1), reload_world_scenario(True, 2)]
+    rinfo = []
+    for rscn, rres in zip(rscns, W.run_scenarios(wire, rscns, workers=3, timeout=90)):
+        rprobs, ri = check_reload_world(rscn, rres)
+        rinfo.append(ri)
+        evals += 6
+        real = [x for x in rprobs if x[0] != "harness"]
+        if real:
+            run.violation("counterexample", "; ".join("%s: %s" % x for x in real[:2]), {"reload_world": True, "scenario": rscn, "problems": real}, found_input=True)
+        elif rprobs:
+            run.broken.append("reload world did not run as scripted: %s" % (rprobs[0][1],))
+    run.cov["reload_worlds"] = rinfo
+
     # soak
     soak_stats = []
     if not quick and not run.violations:
@@ -1426,11 +1552,11 @@ def check(run):
     run.cov["scenarios"] = len(plans)
     run.cov["model_ops"] = sum(len(p.ops) for p in plans)
     run.cov["observation_points"] = sum(len(p.obs) for p in plans)
-    run.cov["rule"] = ("scenarios = 32 scripted corner cases (wait-list rotation on a closed connection under LIFO and FIFO, the F14 regression case with pool 1 and 2, idle server connections reset by the database host (TCP RST) with pool 1 and 2, user-level pool_mode overriding the pool's in both directions (3 clients taking turns on a pool of 1), a health check that times out at checkout (healthcheck_delay 0, healthcheck_timeout 250, `;` answered after 600 ms), COPY FROM STDIN ended by CopyDone / CopyFail / a server error x statement cache on/off with a waiter, COPY TO STDOUT (small, > 8196 bytes) / lone Sync / named Close / named Parse (cache hit) with a waiter, checkout_failure_limit, backend refusing connections + connect timeout + recovery) "
+    run.cov["rule"] = ("scenarios = 36 scripted corner cases (wait-list rotation on a closed connection under LIFO and FIFO, the F14 regression case with pool 1 and 2, extended-protocol batches refused at checkout (pool exhausted, server refusing connections) followed by further batches and queries of the same client (cache on/off), idle server connections reset by the database host (TCP RST) with pool 1 and 2, user-level pool_mode overriding the pool's in both directions (3 clients taking turns on a pool of 1), a health check that times out at checkout (healthcheck_delay 0, healthcheck_timeout 250, `;` answered after 600 ms), COPY FROM STDIN ended by CopyDone / CopyFail / a server error x statement cache on/off with a waiter, COPY TO STDOUT (small, > 8196 bytes) / lone Sync / named Close / named Parse (cache hit) with a waiter, checkout_failure_limit, backend refusing connections + connect timeout + recovery) "
                        "+ seeded random walks over {pool_size 1,2,3} x {transaction, session} x {LIFO, FIFO} x {connect_timeout 6000 ms, 300 ms}, up to 2*pool_size+1 clients, "
-                       "actions chosen among those the model allows in the current state (BEGIN / single statement / COPY FROM STDIN (then CopyDone, CopyFail, socket close; the server may abort it) / COPY TO STDOUT / lone Sync / Close+Sync / Parse+Sync, statement cache on in 40% of the worlds, user-level pool_mode set in 45% of the worlds (35% contradicting the pool's) / statement error / intercepted batch / COMMIT / statement inside a transaction / "
+                       "actions chosen among those the model allows in the current state (BEGIN / single statement / COPY FROM STDIN (then CopyDone, CopyFail, socket close; the server may abort it) / COPY TO STDOUT / extended-protocol batch Parse-Bind-Execute-Sync outside and inside a transaction / lone Sync / Close+Sync / Parse+Sync, statement cache on in 40% of the worlds, user-level pool_mode set in 45% of the worlds (35% contradicting the pool's) / statement error / intercepted batch / COMMIT / statement inside a transaction / "
                        "socket close idle, inside a transaction, while waiting / Terminate / malformed Close / server closes mid-query / server closes after half a reply / statement timeout / backend blip (refuse + graceful close) / abortive reset of every server connection / waiter timeout); "
-                       "plus one replica-only world (default_role replica, every replica banned, must be reopened at the next checkout); every scenario ends with everybody leaving and a probe of pool_size simultaneous transactions.  evaluations = model ops compared planner-vs-Coq + observation points compared Coq-vs-pgcat; "
+                       "backend-side monitor on every scenario: a statement refused at checkout never reaches the backend, an accepted one exactly once; plus three PAUSE -> clients arrive -> RELOAD (pool replaced / kept) -> RESUME worlds with the bound counted over all live backend sessions; plus one replica-only world (default_role replica, every replica banned, must be reopened at the next checkout); every scenario ends with everybody leaving and a probe of pool_size simultaneous transactions.  evaluations = model ops compared planner-vs-Coq + observation points compared Coq-vs-pgcat; "
                        "distinct = distinct (pool_size, mode, strategy, op kind, (connections, pending) after the op, waiters) tuples")
     run.cov["samples"] = samples
     run.cov["input_distribution"] = hist
@@ -1446,6 +1572,10 @@ def replay(run, path):
     ok, blog, bins = vlib.cargo_build(["wire"])
     if not ok:
         print("harness does not build"); return 2
+    if r.get("reload_world"):
+        probs, info = check_reload_world(r["scenario"], W.run_scenario(bins["wire"], r["scenario"], timeout=90))
+        print("replay (reload world):", probs, info)
+        return 1 if probs else 0
     if r.get("ban_world"):
         probs, info = check_ban_world(W.run_scenario(bins["wire"], r["scenario"], timeout=60))
         print("replay (ban world):", probs, info)
